@@ -18,12 +18,34 @@ def loop_nodes(func):
     return fd, [st for st in fd.body if isinstance(st, ast.For)]
 
 
-def extract_loop_body(func, iter_text, occurrence, name, params, returns):
+class _RecordToNames(ast.NodeTransformer):
+    """`rec.attr` -> `rec_attr` for the listed record names (mechanical renaming: fields of a read-only record become parameters of the block)"""
+
+    def __init__(self, records):
+        self.records = set(records)
+
+    def visit_Attribute(self, node):
+        self.generic_visit(node)
+        if isinstance(node.value, ast.Name) and node.value.id in self.records:
+            return ast.copy_location(ast.Name(id="%s_%s" % (node.value.id, node.attr), ctx=node.ctx), node)
+        return node
+
+
+def extract_loop_body(func, iter_text, occurrence, name, params, returns, inner=(), records=()):
+    """`inner`: sequence of (iter text, occurrence) descending into loops nested directly in the body of the selected loop."""
     fd, loops = loop_nodes(func)
     hits = [lp for lp in loops if ast.unparse(lp.iter) == iter_text]
     if len(hits) <= occurrence:
         raise LookupError("loop `for ... in %s` #%d not found in %s" % (iter_text, occurrence, fd.name))
     lp = hits[occurrence]
+    for itext, occ in inner:
+        sub = [st for st in lp.body if isinstance(st, ast.For) and ast.unparse(st.iter) == itext]
+        if len(sub) <= occ:
+            raise LookupError("inner loop `for ... in %s` #%d not found in %s" % (itext, occ, fd.name))
+        lp = sub[occ]
+    if records:
+        lp = _RecordToNames(records).visit(lp)
+        ast.fix_missing_locations(lp)
     body = "\n".join(textwrap.indent(ast.unparse(st), "    ") for st in lp.body)
     target = ast.unparse(lp.target)
     src = "def %s(%s):\n%s\n    return %s\n" % (name, ", ".join(params), body, ", ".join(returns))
@@ -40,7 +62,7 @@ class _SelfToNames(ast.NodeTransformer):
         return node
 
 
-def extract_method_loop_body(func, iter_text, occurrence, name, params, returns):
+def extract_method_loop_body(func, iter_text, occurrence, name, params, returns, inner=(), records=()):
     """like extract_loop_body for a method: `self.x` becomes the parameter `x` (leading underscores dropped)"""
     f = getattr(func, "py_func", func)
     fd = ast.parse(textwrap.dedent(inspect.getsource(f))).body[0]
@@ -48,6 +70,8 @@ def extract_method_loop_body(func, iter_text, occurrence, name, params, returns)
     hits = [lp for lp in loops if ast.unparse(lp.iter) == iter_text]
     if len(hits) <= occurrence:
         raise LookupError("loop `for ... in %s` #%d not found in %s" % (iter_text, occurrence, fd.name))
+    if inner or records:
+        raise LookupError("inner / records are not supported for method blocks")
     lp = _SelfToNames().visit(hits[occurrence])
     ast.fix_missing_locations(lp)
     body = "\n".join(textwrap.indent(ast.unparse(st), "    ") for st in lp.body)
